@@ -42,7 +42,7 @@ W = "esutil/recfile/records.cpp"
 
 # rules that keep their verdict however the code is laid out (decided by term equality, effect analysis or dominance over
 # resolved calls); every other rule of this check is a template rule (vcheck.core.Check.obt)
-SEMANTIC = ('R01.1', 'R01.4', 'R01.6', 'R01.7', 'R01.3::Records::Write', 'R01.3::Records::set_file_type', 'R01.3::Recfile.write[binary]', 'R01.2::SFile.write::', 'R01.3::Recfile.open', 'R01.3::Records::read_binary_slice::transfer-', 'R01.5::io.read::rec-dispatch', 'R01.5::io.write::rec-dispatch', 'R01.5::sfile.write::user-header', 'R01.5::SFile.write::user-header')
+SEMANTIC = ('R01.1', 'R01.4', 'R01.6', 'R01.7', 'R01.3::Records::Write', 'R01.3::Records::set_file_type', 'R01.3::Recfile.write[binary]', 'R01.3::SFile.write::append', 'R01.2::SFile.write::', 'R01.3::Recfile.open', 'R01.3::Records::read_binary_slice::transfer-', 'R01.5::io.read::rec-dispatch', 'R01.5::io.write::rec-dispatch', 'R01.5::sfile.write::user-header', 'R01.5::SFile.write::user-header')
 
 
 # ---------------------------------------------------------------------------
@@ -1144,6 +1144,8 @@ def run(chk):
     header_content(chk, repo, fr)
     front_ends(chk, repo)
     row_count(chk, repo)
+    row_count_accepted(chk, cfun)
+    append_dtype_guard(chk, repo)
     handle_state(chk, repo)
     running_row_count(chk, repo)
     binary_rows_contiguous(chk, repo, cfun)
@@ -4358,8 +4360,15 @@ def front_ends(chk, repo):
     user_value_handed_on(chk, repo, R, "SFile.write::user-header-handed-to-_write_header", "esutil.sfile.SFile.write", "_write_header", "header", 1,
                          lambda x: x == ("param", "header"), "header")
     has_data = lambda t: mentions_term(t, ("param", "data"))
+
+    def header_keyword(t):
+        """the value the caller gave under the keyword `header`, None when there is none: keys.get('header') / keys.get('header', None) /
+        keys.pop('header', None) are one value (the default of dict.get is None)"""
+        return len(t) == 5 and t[0] == "meth" and t[1] == ("param", "keys") and not t[4] and (
+            (t[2] == "get" and t[3] in ((lit("header"),), (lit("header"), NONE))) or (t[2] == "pop" and t[3] == (lit("header"), NONE)))
+    header_keyword.shown = "keys.get('header', None)"
     table = [
-        ("esutil.sfile.write", "SFile", {0: "outfile"}), ("esutil.sfile.write", "write", {0: "data", "header": "keys.get('header', None)"}),
+        ("esutil.sfile.write", "SFile", {0: "outfile"}), ("esutil.sfile.write", "write", {0: "data", "header": header_keyword}),
         ("esutil.sfile.read", "SFile", {0: "filename"}), ("esutil.sfile.read_header", "SFile", {0: "filename"}),
         ("esutil.sfile.SFile.write", "_write_header", {0: "data", "header": "header"}), ("esutil.sfile.SFile.write", "write", {0: "data"}),
         ("esutil.recfile.Util.write", "Recfile", {0: "filename", "mode": "mode"}), ("esutil.recfile.Util.write", "write", {0: "data"}),
@@ -4396,9 +4405,9 @@ def front_ends(chk, repo):
                     # (at the call when the call is there, at its end when the call sits in a helper)
                     good = got == ev.ev_src(want, n if e is ev else ev.cfg.exit)
                 if not good:
-                    bad.append("%s=%s (want %s)" % (role, show(got), want if not callable(want) else "derived from data"))
+                    bad.append("%s=%s (want %s)" % (role, show(got), want if not callable(want) else getattr(want, "shown", "derived from data")))
             okany = okany or not bad
-        chk.ob(R, "%s->%s::roles" % (q, callee), okany, fi.where(), "%s calls %s with %s" % (fi.name, callee, {k: (v if not callable(v) else "<data>") for k, v in roles.items()}))
+        chk.ob(R, "%s->%s::roles" % (q, callee), okany, fi.where(), "%s calls %s with %s" % (fi.name, callee, {k: (v if not callable(v) else getattr(v, "shown", "<data>")) for k, v in roles.items()}))
     sw = repo.func("esutil.sfile.write")
     sev = Ev(repo, sw)
     swaps = []
@@ -4433,6 +4442,407 @@ def front_ends(chk, repo):
     tn = [(n, path_literals(rev, n)) for e, n, c in find_calls(rev, named("to_native"), follow=False)]
     asked = (rev.ev_src("keys.get('ensure_native', False)", rev.cfg.entry), True)
     chk.ob(R, "io.read_rec::byte-order-kept-unless-asked", len(tn) == 1 and asked in tn[0][1], rr.where(), "the byte order read from the file is changed only when ensure_native is requested")
+
+
+# ---------------------------------------------------------------------------
+# R01.3: rows appended to a binary file have the dtype the file declares.  The C++ writer copies the buffer of the array as it is
+# and the header (written once, by the first write) goes on describing the file with the dtype of the first write, byte order
+# included.  So SFile.write may hand an array to the record writer of a handle that already has a dtype only when the dtype of the
+# array EQUALS that dtype: a refusal (raise) that is taken whenever `<file dtype> != data.dtype` must stand before the write.  An
+# equivalence that is coarser than dtype equality (can_cast with casting other than 'no', equality of names / itemsize / kind / str
+# or of descr with the byte order cut off ...) lets rows of the other byte order, or of another layout of the same size, through.
+# The file dtype is the attribute SFile.open hands to Recfile as dtype=.  The raise is found in write() or the private helpers it
+# calls; its condition is read off the branches it is control dependent on, a boolean flag variable tested there replaced by the
+# conditions under which it was set (loop-with-flag / `bad = True` idiom).
+# ---------------------------------------------------------------------------
+
+_DTYPE_COARSE_ATTRS = ("names", "itemsize", "kind", "char", "str", "name", "num", "type", "shape", "ndim", "base", "subdtype", "alignment", "isnative", "byteorder",
+                       "newbyteorder", "hasobject", "metadata")
+_DTYPE_COARSE_CALLS = ("numpy.can_cast", "numpy.promote_types", "numpy.result_type", "numpy.common_type", "numpy.issubdtype", "numpy.find_common_type", "len")
+
+
+def _term_literals(t, want):
+    """canonical literals that all hold when the boolean term has the wanted truth value (a and b true, a or b false, not)"""
+    if t[0] == "not" and len(t) == 2:
+        return _term_literals(t[1], not want)
+    if t[0] == "bool" and len(t) == 3 and ((t[1] == "and" and want) or (t[1] == "or" and not want)):
+        return [y for x in t[2] for y in _term_literals(x, want)]
+    if t[0] == "cmp" and len(t) == 4:
+        return [canon_cmp(t[1], t[2], t[3], want)]
+    return [(t, want)]
+
+
+def _flag_test(test, truth):
+    """(name, 'truthy' | 'isnone', wanted outcome) when the test looks at one local variable only: `x`, `not x`, `x is None`,
+    `x is not None`, `x == None`, `x != None`; None otherwise"""
+    while isinstance(test, ast.UnaryOp) and isinstance(test.op, ast.Not):
+        test, truth = test.operand, not truth
+    if isinstance(test, ast.Name):
+        return test.id, "truthy", truth
+    if isinstance(test, ast.Compare) and len(test.ops) == 1 and isinstance(test.ops[0], (ast.Is, ast.IsNot, ast.Eq, ast.NotEq)):
+        l, r = test.left, test.comparators[0]
+        if isinstance(r, ast.Name) and isinstance(l, ast.Constant) and l.value is None:
+            l, r = r, l
+        if isinstance(l, ast.Name) and isinstance(r, ast.Constant) and r.value is None:
+            return l.id, "isnone", truth == isinstance(test.ops[0], (ast.Is, ast.Eq))
+    return None
+
+
+def _value_outcome(t, mode):
+    """does a value have the outcome the flag test asks about (is it None / is it true): True, False, or None when not known"""
+    if is_lit(t):
+        return (t[1] is None) if mode == "isnone" else bool(t[1])
+    if t[0] in ("cat", "fmt"):                          # a string that is being put together
+        if mode == "isnone":
+            return False
+        return True if any(is_lit(x, str) and x[1] for x in pieces(t)) else None
+    if t[0] in ("tuple", "list", "dict", "set") and mode == "isnone":
+        return False
+    return None
+
+
+def _flag_alternatives(e, node, depth=0):
+    """the condition of a node as a disjunction of conjunctions of canonical literals: the branch outcomes it is control dependent
+    on, where a branch that tests a local flag (`if bad:` / `if not ok:` / `if mess is not None:`) is replaced, definition by
+    definition of the flag that reaches it, by the condition under which that definition gives the flag the tested outcome: a
+    constant or a string that is being built has the outcome or not (the condition is that of the assignment); the result of a
+    private helper is looked at return by return (the condition is that of the return, inside the helper, with its parameters
+    bound); anything else stays a literal about the value"""
+    alts = [[]]
+    for b, lab in e.view.controlling_branches(node):
+        if not (b.kind == "branch" or (b.kind == "loop" and isinstance(b.ast, ast.While))):
+            continue
+        ft = _flag_test(b.ast.test, lab == "T")
+        defs = sorted(e.rd()[b.id].get(ft[0]) or ()) if ft else []
+        if not defs or e.cfg.entry.id in defs or depth > 2:
+            lits = canon(e, b.ast.test, lab == "T", b)
+            alts = [a + lits for a in alts]
+            continue
+        name, mode, want = ft
+        expansions = []
+        for d in defs:
+            dn = e.cfg.node(d)
+            here = [x for alt in _flag_alternatives(e, dn, depth + 1) for x in [alt]]
+            t = e._def_term(dn, name)
+            got = _value_outcome(t, mode)
+            call = dn.ast.value if dn.kind == "stmt" and isinstance(dn.ast, ast.Assign) and isinstance(dn.ast.value, ast.Call) else None
+            sub = callee_ev(e, dn, call) if call is not None and got is None else None
+            if got is not None:
+                if got == want:
+                    expansions.extend(here)
+            elif sub is not None:
+                for r in sub.view.nodes():
+                    if r.kind != "return":
+                        continue
+                    rv = sub.ev(r.ast.value, r) if r.ast.value is not None else NONE
+                    rgot = _value_outcome(rv, mode)
+                    if rgot is not None and rgot != want:
+                        continue
+                    extra = [] if rgot is not None else [(rv, want) if mode == "truthy" else canon_cmp("Is", rv, NONE, want)]
+                    for ralt in _flag_alternatives(sub, r, depth + 1):
+                        expansions.extend(h + extra + ralt for h in here)
+                if want == (mode == "isnone") and any(m.kind != "return" for m in sub.view.pred(sub.cfg.exit)):
+                    expansions.extend(h + [(("expr", "%s runs off its end" % sub.fi.name), True)] for h in here)
+            elif mode == "truthy":
+                expansions.extend(h + _term_literals(t, want) for h in here)
+            else:
+                expansions.extend(h + [canon_cmp("Is", t, NONE, want)] for h in here)
+        alts = [a + x for a in alts for x in expansions][:64]
+    return alts
+
+
+def _kw_self_attrs(e, c, kw):
+    """names of the attributes of self handed to the call under the keyword: written at the call, or stored under that key in a
+    local dict that is handed over with **"""
+    out = set()
+    sn = _selfname(e.fi)
+    a = kwarg(c, kw)
+    if a is not None:
+        if _self_attr(a, sn) is not None:
+            out.add(_self_attr(a, sn))
+        return out
+    for k in c.keywords:
+        if k.arg is None and isinstance(k.value, ast.Name):
+            model = e._dict_events(k.value.id)
+            for n, kind, key, v in (model[2] if model else ()):
+                if kind == "set" and key == kw and v is not None and _self_attr(v, sn) is not None:
+                    out.add(_self_attr(v, sn))
+    return out
+
+
+def append_dtype_guard(chk, repo):
+    R, key = "R01.3", "SFile.write::append-refused-unless-dtype-equals-file-dtype"
+    wr = repo.func("esutil.sfile.SFile.write")
+    so = repo.func("esutil.sfile.SFile.open")
+    chk.analysed_unit(wr.qualname)
+    fattrs = set()
+    opens = find_calls(Ev(repo, so), named("Recfile"))
+    for e, n, c in opens:
+        fattrs |= _kw_self_attrs(e, c, "dtype")
+    if len(fattrs) != 1:
+        chk.ob(R, key, None, so.where(), "the attribute that holds the dtype of the open file (handed to Recfile as dtype=) was not identified (%s)" % sorted(fattrs))
+        return
+    F = ("attr", SELF, fattrs.pop())
+    DATA = ("param", "data")
+    D = ("attr", DATA, "dtype")
+    delim_flags = {}
+    for e, n, c in opens:
+        for a in _kw_self_attrs(e, c, "delim"):
+            delim_flags["self.%s" % a] = None
+    ev = Ev(repo, wr, flags=delim_flags)
+    def top_of(e, n):
+        """the statement of write() itself in which the node of a helper is reached"""
+        while e is not ev and e.outer is not None:
+            e, n = e.outer
+        return n if e is ev else None
+    sinks = [(e, top_of(e, n), c) for e, n, c in find_calls(ev, named("write"))
+             if isinstance(c.func, ast.Attribute) and e.ev(c.func.value, n) not in (SELF, DATA) and c.args and mentions_term(e.ev(c.args[0], n), DATA) and top_of(e, n) is not None]
+    if not sinks:
+        chk.ob(R, key, None, wr.where(), "the call that hands the data to the record writer was not found in SFile.write")
+        return
+
+    def projection(t, root):
+        """the chain of attribute / method / subscript steps that leads from `root` to t; None when t is not such a chain"""
+        steps = []
+        while t != root:
+            if t[0] == "attr" and len(t) == 3:
+                steps.append(t[2]); t = t[1]
+            elif t[0] == "meth" and len(t) == 5:
+                steps.append(t[2] + "()"); t = t[1]
+            elif t[0] in ("sub", "slice") and len(t) >= 3:
+                steps.append("[...]"); t = t[1]
+            else:
+                return None
+        return tuple(reversed(steps))
+
+    def judge(atom, truth):
+        """(verdict, text) for a literal that mentions both the file dtype and the data: True when the raise is taken exactly when the
+        two dtypes differ, False when it is a coarser equivalence, None otherwise"""
+        txt = ("" if truth else "not ") + show(atom)
+        if atom[0] == "cmp" and atom[1] == "Eq" and len(atom) == 4:
+            for x, y in ((atom[2], atom[3]), (atom[3], atom[2])):
+                px, py = projection(x, F), projection(y, D)
+                if px is None or py is None:
+                    continue
+                if px == py and px in ((), ("descr",)):
+                    return (True, txt) if not truth else (None, txt)
+                if px == py and px and all(st in _DTYPE_COARSE_ATTRS or st.rstrip("()") in _DTYPE_COARSE_ATTRS or st == "[...]" for st in px) and px != ("[...]",):
+                    return (False, "%s compares only .%s of the two dtypes" % (txt, ".".join(px))) if not truth else (None, txt)
+        calls = [x for x in subterms(atom) if x and x[0] == "call" and len(x) == 4 and x[1] in _DTYPE_COARSE_CALLS and mentions_term(x, F) and mentions_term(x, DATA)]
+        if atom[0] == "call" and calls and calls[0] == atom and atom[1] == "numpy.can_cast":
+            casting = dict(atom[3]).get("casting", atom[2][2] if len(atom[2]) > 2 else lit("safe"))
+            both = len(atom[2]) >= 2 and ((projection(atom[2][0], F) == () and projection(atom[2][1], D) == ()) or
+                                          (projection(atom[2][1], F) == () and projection(atom[2][0], D) == ()))
+            if is_lit(casting, str) and both and not truth:
+                if casting[1] == "no":
+                    return True, txt
+                return False, "%s: casting=%r holds for dtypes that are not equal (%s)" % (
+                    txt, casting[1], "the same up to byte order" if casting[1] == "equiv" else "any dtype that converts under that rule")
+            return None, txt
+        if calls:
+            return False, "%s: %s is coarser than dtype equality" % (txt, calls[0][1])
+        return None, txt
+
+    exact, coarse, unknown, nguards = [], [], [], 0
+    fname = F[2]
+
+    def unread(a):
+        """an expression the evaluator kept as text (a comprehension, a chained comparison ...) that looks at both dtypes"""
+        texts = [x[1] for x in subterms(a) if x and x[0] in ("expr", "rec") and len(x) > 1 and isinstance(x[1], str)]
+        return bool(texts) and (mentions_term(a, F) or any(fname in x for x in texts)) and (mentions_term(a, DATA) or any("data" in x for x in texts))
+    for e, n in all_raises(ev):
+        tn = top_of(e, n)
+        if tn is None or not any(ev.view.reaches(tn, sn_) and tn.id != sn_.id for _, sn_, _ in sinks):
+            continue
+        for alt in _flag_alternatives(e, n):
+            if any(a[0] == "cmp" and a[1] == "Is" and a[3] == NONE and projection(a[2], SELF) is not None and a[2] != F and tr is False for a, tr in alt):
+                continue                    # the text arm (delimiter is not None): not about binary files
+            cands = [(a, tr) for a, tr in alt if (mentions_term(a, F) and mentions_term(a, DATA)) or unread(a)]
+            if not cands:
+                continue
+            nguards += 1
+            rest = [(a, tr) for a, tr in alt if (a, tr) not in cands]
+            for a, tr in cands:
+                v, txt = judge(a, tr)
+                where = e.fi.where(n.ast)
+                if v is True and len(cands) == 1 and all(not mentions_term(a2, DATA) and not opaque(a2) for a2, _ in rest):
+                    exact.append((where, txt))
+                elif v is False:
+                    coarse.append((where, txt))
+                else:
+                    unknown.append((where, txt))
+    what = "data handed to the record writer of a file that already has a dtype has exactly that dtype (byte order included): a raise taken whenever %s != data.dtype stands before %s" % (
+        show(F), norm(sinks[0][2])[:40])
+    if exact:
+        chk.ob(R, key, True, exact[0][0], "%s (raise when %s)" % (what, exact[0][1]))
+    elif unknown:
+        chk.ob(R, key, None, unknown[0][0], "%s; the condition of the refusal is not recognised: %s" % (what, "; ".join(t for _, t in unknown + coarse)))
+    elif coarse:
+        chk.ob(R, key, False, coarse[0][0], "%s; the only refusal found is taken when %s, so rows whose dtype differs from the file's are appended raw and read back under the file's dtype" % (
+            what, "; ".join(t for _, t in coarse)))
+    else:
+        plain = all(e.ev(c.args[0], n_) == DATA for e, n_, c in find_calls(ev, named("write"))
+                    if isinstance(c.func, ast.Attribute) and c.args and any(c is c2 for _, _, c2 in sinks))
+        chk.ob(R, key, False if plain else None, wr.where(), "%s; no raise on the way to the write compares the dtype of the data with the dtype of the file" % what)
+
+
+# ---------------------------------------------------------------------------
+# R01.6: every row count >= 1 is readable.  The record reader is told the number of rows of the file (parameter `nrows` of the
+# Records constructor, the SWIG entry point Recfile.open calls with nrows=).  The property quantifies over all row counts >= 1, so
+# no throw on the way from the constructor to the reader being usable may be taken because of a comparison of that count with a
+# constant that some count >= 1 satisfies (nrows < 2, nrows <= 1, nrows == 1, nrows > 1000 ...), and the count the reader keeps
+# is the count it was given.  The count is followed through once-initialised locals and into the methods of the file it is
+# handed to as an argument; a comparison with something that is not a constant (the size of the file ...) is not judged.
+# ---------------------------------------------------------------------------
+
+def _c_int_const(n, inits):
+    """integer value of a constant expression, a leading minus included; None when it is not a constant"""
+    n = cfront.strip(c_subst(n, inits))
+    if n.get("kind") == "UnaryOperator" and n.get("opcode") in ("-", "+") and n.get("inner"):
+        v = _c_int_const(n["inner"][0], {})
+        return None if v is None else (-v if n["opcode"] == "-" else v)
+    return c_const_int(n, {})
+
+
+def _count_relation(cond, truth, var, inits):
+    """How the condition, taken with this truth value, constrains the integer variable `var`:
+    ('never', text)  no value >= 1 satisfies it;  ('some', text)  some value >= 1 satisfies it (so it is taken for a legal count);
+    ('unknown', text) it looks at the variable in a way that is not understood;  None: it does not look at the variable, or compares
+    it with something that is not a constant."""
+    n = cfront.strip(c_subst(cond, inits))
+    while n.get("kind") == "UnaryOperator" and n.get("opcode") == "!":
+        n = cfront.strip(n["inner"][0])
+        truth = not truth
+    if var not in _c_refs(n):
+        return None
+    txt = ("" if truth else "!") + "(%s)" % cfront.render(n)[:70]
+    is_var = lambda x: cfront.strip(x).get("kind") == "DeclRefExpr" and cfront.render(cfront.strip(x)) == var
+    if is_var(n):                                       # the count as a truth value: != 0
+        return ("some", txt) if truth else ("never", txt)
+    if n.get("kind") == "BinaryOperator" and n.get("opcode") in _CNEG and len(n.get("inner") or []) == 2:
+        l, r = n["inner"]
+        op = n["opcode"] if truth else _CNEG[n["opcode"]]
+        if is_var(r) and not is_var(l):
+            l, r, op = r, l, _CSWAP[op]
+        if is_var(l) and var not in _c_refs(r):
+            k = _c_int_const(r, inits)
+            if k is None:
+                return None                              # compared with something that is not a constant: not this rule's business
+            some = {"<": k > 1, "<=": k >= 1, "==": k >= 1, "!=": True, ">": True, ">=": True}[op]
+            return ("some" if some else "never", "%s %s %d" % (var, op, k))
+    return ("unknown", txt)
+
+
+def _c_alternatives(cond, truth):
+    """the conditions one of which holds when `cond` is taken with this truth value: a || b taken true, a && b taken false"""
+    n = cfront.strip(cond)
+    if n.get("kind") == "UnaryOperator" and n.get("opcode") == "!":
+        return _c_alternatives(n["inner"][0], not truth)
+    if n.get("kind") == "BinaryOperator" and ((n.get("opcode") == "||" and truth) or (n.get("opcode") == "&&" and not truth)):
+        return [y for x in n["inner"] for y in _c_alternatives(x, truth)]
+    return [(cond, truth)]
+
+
+def row_count_accepted(chk, cfun):
+    R = "R01.6"
+    ctor = cfun.get("Records::Records")
+    key = "Records::every-row-count>=1-is-accepted"
+    if ctor is None or "nrows" not in cfront.params_of(ctor):
+        chk.ob(R, key, None, W, "the constructor of the record reader with its nrows parameter was not found")
+        return
+    # what tells the reader it is opened for reading: the mode parameter and the members it is copied to
+    modes = {p for p in cfront.params_of(ctor) if p and "mode" in p.lower()}
+    for x in cfront.walk(cfront.body_of(ctor)):
+        if x.get("kind") in ("BinaryOperator", "CXXOperatorCallExpr") and (x.get("opcode") == "=" or cfront.callee_name(x) == "operator="):
+            ops = cfront.call_args(x) if x.get("kind") == "CXXOperatorCallExpr" else x.get("inner") or []
+            if len(ops) == 2 and (_c_refs(ops[1]) - {None}) & modes:
+                modes |= {m for m in _c_refs_members(ops[0]) if m and not m.startswith("operator")}
+    bad, undecided, seen, stores = [], [], [], []
+
+    def about_mode_only(c):
+        refs = {r for r in _c_refs_members(c) if r and not r.startswith("operator")}
+        return bool(refs) and refs <= modes
+
+    def passed_guard(ccfg, view, b, lab):
+        """the other arm of the branch never returns normally (it throws): the branch outcome is what every successful call has"""
+        import networkx as nx
+        other = "F" if lab == "T" else "T"
+        arms = [j for j in view.g.successors(b.id) if other in (view.g[b.id][j].get("labels") or ())]
+        return bool(arms) and not any(j == ccfg.exit.id or nx.has_path(view.g, j, ccfg.exit.id) for j in arms)
+
+    def visit(fn, var, context, depth):
+        if depth > 3 or (id(fn), var) in [(id(f), v) for f, v in seen]:
+            return
+        seen.append((fn, var))
+        inits = c_inits(fn)
+        inits.pop(var, None)
+        try:
+            ccfg = cfront.CCFG(fn)
+        except AnalysisError:
+            undecided.append("%s: control flow not recovered" % fn.get("name"))
+            return
+        view = ccfg.view()
+        aliases = {var} | {k for k, v in inits.items() if cfront.strip(v).get("kind") == "DeclRefExpr" and cfront.render(cfront.strip(v)) == var}
+        for n in ccfg.nodes:
+            if n.id not in view.reach or not isinstance(n.c, dict):
+                continue
+            ctl = [(b.c, lab == "T", passed_guard(ccfg, view, b, lab)) for b, lab in view.controlling_branches(n) if b.c is not None and lab in ("T", "F")]
+            conj = [y for c, t, _ in ctl for y in _c_conjuncts(c, t)]
+            # having got past `if (...) throw` says nothing about which files are concerned: every successful open got past it
+            free = [y for c, t, g_ in ctl if not g_ for y in _c_conjuncts(c, t)]
+            if n.kind == "raise":
+                hits, others, impossible, unknown = [], list(context), False, []
+                for c, t in conj:
+                    rels = [_count_relation(a, at, var, inits) for a, at in _c_alternatives(c, t)]
+                    if any(r is not None for r in rels) and all(r is not None and r[0] == "never" for r in rels):
+                        impossible = True               # this throw is not taken for any count >= 1
+                    elif not any(c is c_ for c_, _ in free):
+                        continue                        # the outcome of a guard that was passed: not what this throw is taken for
+                    elif any(r is not None and r[0] == "some" for r in rels):
+                        hits.append([r for r in rels if r is not None and r[0] == "some"][0][1])
+                    elif any(r is not None and r[0] == "unknown" for r in rels):
+                        unknown.append([r for r in rels if r is not None and r[0] == "unknown"][0][1])
+                    elif all(r is None for r in rels):
+                        others.append(c)
+                if impossible or not (hits or unknown):
+                    continue
+                where = "%s line %s" % (fn.get("name"), n.lineno or "?")
+                if hits and not unknown and all(about_mode_only(c) for c in others):
+                    bad.append((n.lineno, "the throw at %s is taken when %s: a file with that many rows (a legal count, >= 1) can be written but not opened for reading" % (
+                        where, " and ".join(hits))))
+                else:
+                    undecided.append("the throw at %s depends on the row count (%s) together with conditions this rule does not judge" % (where, " and ".join(hits + unknown)))
+            # the count handed on to a method of the file: followed with the parameter it becomes
+            for c in cfront.calls_in(n.c):
+                nm = cfront.callee_name(c)
+                g = (cfun.get("Records::%s" % nm) or cfun.get(nm)) if nm else None
+                if g is None or not cfront.has_body(g):
+                    continue
+                for p, a in zip(cfront.params_of(g), cfront.call_args(c)):
+                    sa = cfront.strip(c_subst(a, inits))
+                    if p and sa.get("kind") == "DeclRefExpr" and cfront.render(sa) == var:
+                        visit(g, p, context + [c_ for c_, t_ in free if var not in _c_refs(c_)], depth + 1)
+            # the count kept on the object
+            for x in cfront.walk(n.c):
+                if x.get("kind") == "BinaryOperator" and x.get("opcode") == "=" and len(x.get("inner") or []) == 2:
+                    l, r = cfront.strip(x["inner"][0]), cfront.strip(c_subst(x["inner"][1], inits))
+                    if l.get("kind") == "MemberExpr" and var in _c_refs(r):
+                        stores.append((l.get("name"), r.get("kind") == "DeclRefExpr" and cfront.render(r) == var, cfront.render(x)[:60], n.lineno))
+
+    visit(ctor, "nrows", [], 0)
+    for f, v in seen:
+        chk.analysed_unit("Records::%s" % f.get("name"))
+    if bad:
+        ln, msg = bad[0]
+        chk.ob(R, key, False, "%s:%s" % (W, ln) if ln else W, "no row count >= 1 is refused by the record reader: " + msg)
+    else:
+        chk.ob(R, key, None if undecided else True, cwhere(ctor),
+               "no row count >= 1 is refused by the record reader: no throw between the constructor and the count being stored is taken because of a comparison of nrows "
+               "with a constant that a count >= 1 satisfies%s" % ("" if not undecided else " (%s)" % "; ".join(undecided)))
+    kept = [s_ for s_ in stores if s_[1]]
+    chk.ob(R, "Records::row-count-kept-as-given", True if kept else (False if stores else None), "%s:%s" % (W, stores[0][3]) if stores and stores[0][3] else cwhere(ctor),
+           "the number of rows the reader works with is the nrows it was given, stored unchanged (%s)" % (
+               ", ".join(s_[2] for s_ in stores) or "no assignment of it to a member found"))
 
 
 # ---------------------------------------------------------------------------
